@@ -97,6 +97,7 @@ def worker(job):
                'samples': [], 'ended': {}, 'solver': {}, 'traceback': traceback.format_exc(), 'max_loop': 0}
     res['wall_s'] = round(time.time() - t0, 3)
     res['params'] = opts.get('params', {})
+    res['fix'] = opts.get('fix')
     res['mode'] = opts.get('mode', 'shape')
     res['known_hits'] = res.get('known_hits', [])
     return res
@@ -186,11 +187,13 @@ def run_check(pid, tier, seed=0):
         replays = []
         to_replay = []
         rdir = os.path.join(VERIF, 'evidence', 'replays')
+        nvec = 0
         for r in results:
-            for n, v in enumerate(r['violations']):
+            for v in r['violations']:
                 os.makedirs(rdir, exist_ok=True)
                 key = entry_key(r['entry'])
-                fn = '%s-%s-%d.json' % (pid, re.sub(r'[^A-Za-z0-9_]+', '_', key), n)
+                fn = '%s-%s-%d.json' % (pid, re.sub(r'[^A-Za-z0-9_]+', '_', key), nvec)
+                nvec += 1
                 path = os.path.join(rdir, fn)
                 vec = {'entry': key, 'label': v['label'], 'values': [{'name': x['name'], 'bits': x['bits']} for x in v['values']],
                        'params': r['params'], 'text': v.get('text'), 'pos': v.get('pos'), 'choices': v.get('choices')}
@@ -273,11 +276,16 @@ def run_check(pid, tier, seed=0):
             lines.append('INCONCLUSIVE property=%s entry %s not found in the harness package' % (pid, m))
         # vacuity: required covers
         vac = []
+        agg = {}
         for r in results:
-            want = proptable.required_covers(pid, entry_key(r['entry']))
-            for c in want:
-                if r['covers'].get(c, 0) == 0 and not r['unsupported']:
-                    vac.append((entry_key(r['entry']), c))
+            a = agg.setdefault(entry_key(r['entry']), {'covers': {}, 'unsupported': False})
+            for c, n in r['covers'].items():
+                a['covers'][c] = a['covers'].get(c, 0) + n
+            a['unsupported'] = a['unsupported'] or bool(r['unsupported'])
+        for key, a in agg.items():
+            for c in proptable.required_covers(pid, key):
+                if a['covers'].get(c, 0) == 0 and not a['unsupported']:
+                    vac.append((key, c))
         for e, c in vac:
             lines.append('VACUOUS property=%s harness=%s cover %s not reached' % (pid, e, c))
         wall = time.time() - t_start
@@ -330,7 +338,7 @@ def write_evidence(pid, tier, seed, spec, ir, results, confirmed, unconfirmed, w
             'explanation': 'symbolic execution of the go/ssa of the current /repo tree; states = feasible symbolic paths explored to completion, transitions = SSA instructions executed symbolically; every assertion is an SMT query over all inputs of that path',
             'technique': 'SSA->SMT symbolic execution (z3), counterexamples replayed natively',
             'harness_instantiations': [{'harness': entry_key(r['entry']), 'mode': r.get('mode'), 'paths': r['paths'], 'instrs': r['instrs'],
-                                        'wall_s': r['wall_s'], 'params': r['params'], 'ended': r['ended'],
+                                        'wall_s': r['wall_s'], 'params': r['params'], 'case_split_slice': r.get('fix'), 'ended': r['ended'],
                                         'max_loop_unrolling': r.get('max_loop', 0),
                                         'queries': r.get('solver', {}).get('queries', 0)} for r in results],
             'functions_encoded': functions_encoded(ir) if ir else [],
